@@ -72,7 +72,10 @@ def node_of(url):
         return 'no-configured-node:' + str(url)[:40]
 
 
-def observe(n, outcomes, layout=None):
+def observe(n, outcomes, layout=None, perturb=False):
+    """perturb: between the requests the client object is looked at (repr / str / attribute reads), and every other request is made from a thread of its own
+    (one after the other, never two at a time) - neither is a request, neither moves the rotation"""
+    import threading
     from pytezos.rpc.node import RpcMultiNode, RpcError
     uris = ['http://node%d.invalid' % (layout[i] if layout else i) for i in range(n)]
     node = RpcMultiNode(uris if n > 1 else uris[0])
@@ -83,15 +86,29 @@ def observe(n, outcomes, layout=None):
         for o in outcomes:
             boundary.reset(script_for(o))
             rec.urls = []
-            try:
-                node.request('GET', 'chains/main/blocks/head')
-                res = 'ok'
-            except (RpcError, AssertionError):
-                res = 'err'
-            except Exception as e:       # transport failure raised by the HTTP library
-                if type(e).__name__ != 'ConnectionError':
-                    raise
-                res = 'err'
+            box = []
+
+            def one():
+                try:
+                    node.request('GET', 'chains/main/blocks/head')
+                    box.append('ok')
+                except (RpcError, AssertionError):
+                    box.append('err')
+                except Exception as e:       # transport failure raised by the HTTP library
+                    box.append('err' if type(e).__name__ == 'ConnectionError' else e)
+            if perturb:
+                repr(node), str(node), len(node.nodes), getattr(node, 'uri', None)
+                if len(obs) % 3 == 1:
+                    repr(node)
+            if perturb and len(obs) % 2 == 1:
+                t = threading.Thread(target=one)
+                t.start()
+                t.join()
+            else:
+                one()
+            res = box[0]
+            if isinstance(res, Exception):
+                raise res
             hit = sorted({node_of(u) for u in rec.urls}, key=str)
             obs.append((hit, res, len(rec.urls)))
     finally:
@@ -102,6 +119,11 @@ def observe(n, outcomes, layout=None):
 def compare(ctx, n, log, sig='C28:replay', layout=None):
     outcomes = [e[1] for e in log]
     obs = observe(n, outcomes, layout)
+    obs_p = observe(n, outcomes, layout, perturb=True)
+    if obs_p != obs:
+        ctx.mismatch(sig + ':depends-on-observers-or-calling-thread', 'requests %s with N=%d: nodes / results %s; with the client object printed between the requests and every other request made from its own thread: %s' % (
+            outcomes, n, obs, obs_p), {'n': n, 'log': to_json(log), 'layout': layout})
+        return False
     if layout:
         for i, ((node, o), (hit, res, k)) in enumerate(zip(log, obs)):
             if hit != [layout[node]]:
